@@ -29,6 +29,11 @@ type Spec struct {
 	// MaxEvents overrides the default bound on scheduling events (long
 	// "soak" histories).
 	MaxEvents int `json:"max_events,omitempty"`
+	// Auto: the run was executed by the auto-yield worker (built against the
+	// instrumented copy of the library: a yield before every statement).
+	// Event logs of the two workers are not comparable, so a replay must use
+	// the same kind of worker.
+	Auto bool `json:"auto,omitempty"`
 }
 
 // StratSpec names the scheduling strategy of a generated run.
